@@ -32,6 +32,8 @@ def work(item, opts):
                 sp["minmax"] = "max" if sp["minmax"] == "min" else "min"
             priors.append(sp)
         case["prior"] = priors
+    from . import hooks
+    hooks.cov_start()
     utils = bool(opts.get("utils"))
     obs = run.run_case(case, cpu_budget=opts.get("cpu_budget", 120.0), delay=delay,
                        workdir=os.environ.get("PVMON_WORKDIR"), keep_result=utils,
@@ -45,4 +47,5 @@ def work(item, opts):
             from .props import c15
             rng = random.Random(f"utils/{opts.get('seed', 0)}/{case.get('i')}")
             obs["stats"]["utils_judged"] = c15.utils_oracle(obs, result, case["spec"].get("minmax", "min"), rng)
+    obs["cov"] = hooks.cov_take()
     return obs
